@@ -313,6 +313,46 @@ theorem coordinate_kept_x (w w' j j' : Nat) (ox sx : F) (hsx : sx ≠ 0) (h1 : 1
   rw [pixelCentreX_eq _ _ _ _ hsx, pixelCentreX_eq _ _ _ _ hsx]
   exact centreX_kept w w' j j' ox sx h1 h1' hpar hidx
 
+/-- (d3') any `Array2D.resized_from` that preserves the parity of both dimensions: a pixel `(y,x)` of
+    the source that survives at `(r,c)` (the centred-window correspondence `r + ⌊H/2⌋ = y + ⌊H'/2⌋`,
+    `c + ⌊W/2⌋ = x + ⌊W'/2⌋`) keeps its mask bit, its value and both scaled coordinates. -/
+theorem resize_keeps_value_and_coordinate (a : Impl.Arr F) (zero : F) (hwf : a.WF zero) (h' w' : Nat)
+    (mp : Bool) (h1 : 1 ≤ a.gm.mask.h) (w1 : 1 ≤ a.gm.mask.w) (h1' : 1 ≤ h') (w1' : 1 ≤ w')
+    (hpy : a.gm.mask.h % 2 = h' % 2) (hpx : a.gm.mask.w % 2 = w' % 2)
+    (hsy : a.gm.geom.sy ≠ 0) (hsx : a.gm.geom.sx ≠ 0)
+    (y x r c : Nat) (hy : y < a.gm.mask.h) (hx : x < a.gm.mask.w) (hr : r < h') (hc : c < w')
+    (hidy : r + a.gm.mask.h / 2 = y + h' / 2) (hidx : c + a.gm.mask.w / 2 = x + w' / 2) :
+    let P := Impl.arrayResizedFrom a h' w' mp zero
+    P.gm.geom = a.gm.geom
+    ∧ P.gm.mask.get r c = a.gm.mask.get y x
+    ∧ P.native.getD (r * w' + c) zero = a.native.getD (y * a.gm.mask.w + x) zero
+    ∧ Impl.pixelCentreY h' P.gm.geom.oy P.gm.geom.sy r
+        = Impl.pixelCentreY a.gm.mask.h a.gm.geom.oy a.gm.geom.sy y
+    ∧ Impl.pixelCentreX w' P.gm.geom.ox P.gm.geom.sx c
+        = Impl.pixelCentreX a.gm.mask.w a.gm.geom.ox a.gm.geom.sx x := by
+  intro P
+  have ey : Spec.srcIndex (a.gm.mask.h / 2) h' r = (y : Int) := by unfold Spec.srcIndex; omega
+  have ex : Spec.srcIndex (a.gm.mask.w / 2) w' c = (x : Int) := by unfold Spec.srcIndex; omega
+  have hin : 0 ≤ (y : Int) ∧ (y : Int) < (a.gm.mask.h : Int) ∧ 0 ≤ (x : Int) ∧ (x : Int) < (a.gm.mask.w : Int) := by
+    omega
+  have hmask : (Impl.maskResizedFrom a.gm h' w' mp).mask.get r c = a.gm.mask.get y x := by
+    rw [maskResized_get a.gm h' w' mp r c hr hc]
+    unfold Spec.resizedAt
+    simp only [ey, ex, hin, and_self, if_true, Int.toNat_natCast]
+    exact bits_getD_eq_get a.gm.mask hwf.1 y x hy hx
+  refine ⟨rfl, hmask, ?_, ?_, ?_⟩
+  · show (Impl.arrayResizedFrom a h' w' mp zero).native.getD (r * w' + c) zero = _
+    rw [arrayResized_native_getD a h' w' mp zero r c hr hc, hmask]
+    unfold Spec.resizedAt
+    simp only [ey, ex, hin, and_self, if_true, Int.toNat_natCast]
+    by_cases hm : a.gm.mask.get y x = true
+    · simp only [hm, if_true]
+      exact (Arr.WF.zero_at_masked hwf y x hy hx hm).symm
+    · simp only [hm]
+      rfl
+  · exact coordinate_kept_y a.gm.mask.h h' y r a.gm.geom.oy a.gm.geom.sy hsy h1 h1' hpy hidy
+  · exact coordinate_kept_x a.gm.mask.w w' x c a.gm.geom.ox a.gm.geom.sx hsx w1 w1' hpx hidx
+
 /-- (d4) PSF padding (`padded_before_convolution_from` for an odd kernel, mask pad value 1 as used
     by the automatic padding): the slim values and the slim grid of pixel-centre coordinates of the
     padded array are those of the original array, entry by entry in the same order; the geometry
@@ -424,5 +464,20 @@ example :
         = [(1 / 2, -2), (0, 0)] := by
   refine ⟨⟨by decide, by decide, by decide +kernel⟩, by decide +kernel, by decide +kernel,
     by decide +kernel, by decide +kernel, ?_, ?_⟩ <;> decide +kernel
+
+/-- the coordinate theorems apply to the number type the driver executes (`Rat` is a field of
+    characteristic zero): `padding_keeps_triples` instantiated at ℚ on the array above. -/
+example :
+    let a : Impl.Arr Rat :=
+      ⟨⟨⟨2, 2, [false, true, true, false]⟩, ⟨1 / 2, 2, 1 / 4, -1⟩⟩, [5, 0, 0, 7], false⟩
+    Impl.slimFrom (Impl.paddedBeforeConvolution a 3 5 true 0).gm.mask
+        (Impl.paddedBeforeConvolution a 3 5 true 0).native 0 = Impl.slimFrom a.gm.mask a.native 0
+    ∧ Impl.gridSlimViaMask (Impl.paddedBeforeConvolution a 3 5 true 0).gm.mask
+        (Impl.paddedBeforeConvolution a 3 5 true 0).gm.geom = Impl.gridSlimViaMask a.gm.mask a.gm.geom := by
+  intro a
+  have h := padding_keeps_triples (F := Rat) a 0 3 5 (by decide) (by decide)
+    ⟨by decide, by decide, by decide +kernel⟩ (by decide) (by decide) (by decide +kernel)
+    (by decide +kernel)
+  exact ⟨h.2.1, h.2.2⟩
 
 end C14
